@@ -1,7 +1,11 @@
 import SuxModel.Serde.Lemmas
+import SuxModel.Serde.Bridges
+import SuxModel.Serde.BridgeLemmas
 import SuxModel.Base.BitsLemmas
 import SuxModel.BitVec.Model
 import SuxModel.RankSel.Rank9.Model
+import SuxModel.Props.C03
+import SuxModel.Props.C04
 /-!
 # C15 — serialized structures answer identically after any way of loading them back
 
@@ -12,8 +16,18 @@ element alignment (counted from the start of the file) + `repr(C)` images of pad
 ε-serde's derive macros, its header (type/alignment hashes) and the operating system's `mmap` are
 trusted and exercised by runner `serde`, not modelled.  The tie to the real code is differential:
 `run_serde.rs` prints the field tuple of real `BitVec`, `BitFieldVec<u8|u16|u32|u64|usize>`,
-`Rank9`, `RankSmall×5`, `EliasFano`, `RearCodedList` instances and the bytes ε-serde wrote;
-`Serde/Runner.lean` recomputes the bytes with `payload` (byte-for-byte equal on every run).
+`Rank9`, `RankSmall×5`, `EliasFano` (plain, `EfSeq`, `EfDict`, `EfSeqDict`), `RearCodedList`, `AddNumBits`,
+`Select9`, `SelectAdapt`/`SelectZeroAdapt`(+`Const`) and `SelectSmall`/`SelectZeroSmall` stacks, `VFunc` and
+`VFilter` (every shard/edge logic, boxed-slice and `BitFieldVec` backends) instances and the bytes
+ε-serde wrote; `Serde/Runner.lean` parses the tuple into the MODEL states through the bridges of
+`Serde/Bridges.lean`, lays it out again with the bridges' `of` (must be the tuple itself) and
+recomputes the bytes with `payload` (byte-for-byte equal on every run).
+
+**Structure theorems (second half of the file).**  For every structure `X` that has a model in this
+project, `x_answers`: every query of the MODEL of `X` (any function of the model state) answers on
+the state re-loaded from `encode` — full copy, and ε-copy from an aligned buffer — as on the
+original.  They are instances of `Bridge.answers` through `Bridge.parse_of` (`toX (ofX x) = some x`)
+and the `…_fits` lemmas; the hypotheses are exactly the machine ranges of the Rust field types.
 The property itself (every query of every structure type answers identically after every loader)
 is decided by that runner on the real code; level claimed: translation validation, partial proof.
 
@@ -138,8 +152,6 @@ theorem toBV_ofBV (s : Sux.BV.St) : toBV (ofBV s) = some s := by
     have : ((fun x : List Nat => x.headD 0) ∘ fun x : Nat => [x]) = id := by
       funext x; simp
     rw [this]; simp
-
-theorem pow256_8 : (256 : Nat) ^ 8 = 2 ^ 64 := by decide
 
 theorem slice8_wf (ws : Array Nat) (hw : WordsOK 64 ws) (hn : ws.size < 2 ^ 64) :
     (Field.slice 8 ws.toList).WF := by
@@ -270,5 +282,425 @@ example (pos : Nat) :
       show ∀ i, i < 2 → (#[0xF0F0, 5] : Array Nat).getD i 0 < 2 ^ 64
       decide)
     (by decide) (by decide) (by decide) (by decide)).2 (by decide)
+
+/-! # Structure theorems through the bridges of `Serde/Bridges.lean`
+
+`reloadFull hdr fs` = `decodeFull` of `encode hdr fs`; `reloadView base hdr fs` = `loadView` (ε-copy +
+typed reads) of `encode hdr fs` from a buffer at address `base`; `B.of` the field tuple (displayed by
+the `…B_of` lemmas), `B.load` the parser back to the model state. -/
+
+/-- for EVERY bridged structure: an ε-copy load from a buffer whose address is misaligned for one
+of its sequence fields is rejected (`AlignmentError`), never answered differently -/
+theorem bridged_misaligned_rejected {X : Type} (B : Bridge X) (base : Nat) (hdr : List Nat) (x : X)
+    (hf : B.Fits x) (hm : ∃ f ∈ B.of x, ¬ f.alignedAt base) : reloadView base hdr (B.of x) = none :=
+  B.rejected base hdr x hf hm
+
+/-- a `BitFieldVec<u16>` at an odd address -/
+example : reloadView 4097 exHdr ((bfvB 2).of ⟨#[0xABCD, 0xF234], 6, 5⟩) = none :=
+  bridged_misaligned_rejected (bfvB 2) 4097 exHdr ⟨#[0xABCD, 0xF234], 6, 5⟩
+    (bfvB_fits 2 _ (by decide) ⟨by decide, by decide, by decide, wordsOK_of_all _ _ (by decide)⟩ (by decide)
+      (by decide))
+    ⟨Field.slice 2 [0xABCD, 0xF234], by simp [bfvB_of], by decide⟩
+
+/-! ### 1. `BitFieldVec<W>`, `W = 8 * wb` bits (`wb = 1, 2, 4, 8, 16`) — `Sux.BFV.St` -/
+
+/-- every query of the `BitFieldVec` model (`get`, `getUnaligned`, iterators, `eq`, …) answers
+identically after loading; `Inv` is the representation invariant of the model -/
+theorem bfv_answers {α : Type} (wb : Nat) (query : Sux.BFV.St → α) (base : Nat) (hdr : List Nat)
+    (s : Sux.BFV.St) (hwb : 0 < wb) (hwb16 : wb ≤ 16) (hinv : s.Inv (8 * wb))
+    (hn : s.words.size < 2 ^ 64) (hl : s.len < 2 ^ 64) :
+    ((reloadFull hdr ((bfvB wb).of s)).bind (bfvB wb).load).map query = some (query s)
+    ∧ (base % wb = 0 →
+        ((reloadView base hdr ((bfvB wb).of s)).bind (bfvB wb).load).map query = some (query s)) := by
+  have h := (bfvB wb).answers query base hdr s (bfvB_fits wb s hwb16 hinv hn hl)
+  exact ⟨h.1, fun hb => h.2 (bfvB_al wb base hwb hb)⟩
+
+/-- five 6-bit values in two 16-bit words with stale bits above bit 30, a 63-byte header, a buffer at
+an address that is even but not a multiple of 4 -/
+example (i : Nat) :
+    ((reloadView 4098 exHdr ((bfvB 2).of ⟨#[0xABCD, 0xF234], 6, 5⟩)).bind (bfvB 2).load).map
+      (fun s => Sux.BFV.get 16 s i) = some (Sux.BFV.get 16 ⟨#[0xABCD, 0xF234], 6, 5⟩ i) :=
+  (bfv_answers 2 (fun s => Sux.BFV.get 16 s i) 4098 exHdr ⟨#[0xABCD, 0xF234], 6, 5⟩ (by decide) (by decide)
+    ⟨by decide, by decide, by decide, wordsOK_of_all _ _ (by decide)⟩ (by decide) (by decide)).2 (by decide)
+
+example : (reloadFull exHdr ((bfvB 2).of ⟨#[0xABCD, 0xF234], 6, 5⟩)).bind (bfvB 2).load
+    = some ⟨#[0xABCD, 0xF234], 6, 5⟩ := by decide
+
+/-! ### 2. `RankSmall<N, W, BitVec>` — `Sux.BV.St` + `Sux.RS.RankSmall.Idx` -/
+
+open Sux.RS.RankSmall in
+/-- `rank`, `rank_zero`, `num_ones`, … of the `RankSmall` model (any function of the bit vector and
+of `upper_counts`, `counts`, `num_ones` — not necessarily the ones the builder computes).
+`absolute : u32` and `relative : [u32; N]` give the two bounds on the counters. -/
+theorem rankSmall_answers {α : Type} (P : SmallParams) (query : Sux.BV.St → Idx → α)
+    (base : Nat) (hdr : List Nat) (b : Sux.BV.St) (x : Idx)
+    (hw : WordsOK 64 b.words) (hn : b.words.size < 2 ^ 64) (hl : b.len < 2 ^ 64)
+    (hu : WordsOK 64 x.upper) (hun : x.upper.size < 2 ^ 64) (hcn : x.counts.size < 2 ^ 64)
+    (hc : ∀ c ∈ x.counts.toList, c.absolute < 2 ^ 32 ∧ c.relative < 2 ^ (32 * P.numU32))
+    (ho : x.numOnes < 2 ^ 64) :
+    ((reloadFull hdr ((rankSmallB P).of (b, x))).bind (rankSmallB P).load).map (fun t => query t.1 t.2)
+        = some (query b x)
+    ∧ (base % 8 = 0 →
+        ((reloadView base hdr ((rankSmallB P).of (b, x))).bind (rankSmallB P).load).map
+          (fun t => query t.1 t.2) = some (query b x)) := by
+  have h := (rankSmallB P).answers (fun t => query t.1 t.2) base hdr (b, x)
+    ⟨bvB_fits b hw hn hl, rsmIdxB_fits P x hu hun hcn hc ho⟩
+  exact ⟨h.1, fun hb => h.2 ⟨bvB_al base hb, rsmIdxB_al P base hb⟩⟩
+
+open Sux.RS.RankSmall in
+/-- for the index the MODEL BUILDER computes (`RankSmall::new`) the bounds on the block counters need
+not be assumed: `absolute` is cast to `u32` and `set_rel` keeps `32 * NUM_U32S` bits -/
+theorem rankSmall_built_answers {α : Type} (P : SmallParams) (query : Sux.BV.St → Idx → α)
+    (base : Nat) (hdr : List Nat) (b : Sux.BV.St) (x : Idx) (hb : build P b.words b.len = .ok x)
+    (hw : WordsOK 64 b.words) (hn : b.words.size < 2 ^ 64) (hl : b.len < 2 ^ 64)
+    (hu : WordsOK 64 x.upper) (hun : x.upper.size < 2 ^ 64) (hcn : x.counts.size < 2 ^ 64)
+    (ho : x.numOnes < 2 ^ 64) :
+    ((reloadFull hdr ((rankSmallB P).of (b, x))).bind (rankSmallB P).load).map (fun t => query t.1 t.2)
+        = some (query b x)
+    ∧ (base % 8 = 0 →
+        ((reloadView base hdr ((rankSmallB P).of (b, x))).bind (rankSmallB P).load).map
+          (fun t => query t.1 t.2) = some (query b x)) :=
+  rankSmall_answers P query base hdr b x hw hn hl hu hun hcn (build_counts P b.words b.len x hb) ho
+
+open Sux.RS.RankSmall in
+/-- `rank_small![1]` built by the model builder over 70 bits -/
+example (pos : Nat) : ∃ x, build ⟨1, 9⟩ #[0xF0F0, 0x3F] 70 = .ok x ∧
+    ((reloadFull exHdr ((rankSmallB ⟨1, 9⟩).of (⟨#[0xF0F0, 0x3F], 70⟩, x))).bind (rankSmallB ⟨1, 9⟩).load).map
+      (fun t => rank ⟨1, 9⟩ t.1.words t.1.len t.2 pos) = some (rank ⟨1, 9⟩ #[0xF0F0, 0x3F] 70 x pos) :=
+  ⟨_, (by decide : build ⟨1, 9⟩ #[0xF0F0, 0x3F] 70 = .ok ⟨#[0], #[⟨0, 3677198⟩], 14⟩),
+    (rankSmall_built_answers ⟨1, 9⟩ (fun b x => rank ⟨1, 9⟩ b.words b.len x pos) 0 exHdr
+      ⟨#[0xF0F0, 0x3F], 70⟩ _ (by decide) (wordsOK_of_all _ _ (by decide)) (by decide) (by decide)
+      (wordsOK_of_all _ _ (by decide)) (by decide) (by decide) (by decide)).1⟩
+
+open Sux.RS.RankSmall in
+/-- `rank_small![4]` (`[u32; 3]`): 70 bits, one block whose 96-bit `relative` uses all three words -/
+example (pos : Nat) :
+    ((reloadFull exHdr ((rankSmallB ⟨3, 13⟩).of (⟨#[0xF0F0, 0x3F], 70⟩,
+        ⟨#[0], #[⟨0, 0x123456789ABCDEF001122334⟩], 14⟩))).bind (rankSmallB ⟨3, 13⟩).load).map
+      (fun t => rank ⟨3, 13⟩ t.1.words t.1.len t.2 pos)
+      = some (rank ⟨3, 13⟩ #[0xF0F0, 0x3F] 70 ⟨#[0], #[⟨0, 0x123456789ABCDEF001122334⟩], 14⟩ pos) :=
+  (rankSmall_answers ⟨3, 13⟩ (fun b x => rank ⟨3, 13⟩ b.words b.len x pos) 0 exHdr ⟨#[0xF0F0, 0x3F], 70⟩
+    ⟨#[0], #[⟨0, 0x123456789ABCDEF001122334⟩], 14⟩
+    (wordsOK_of_all _ _ (by decide)) (by decide) (by decide) (wordsOK_of_all _ _ (by decide)) (by decide)
+    (by decide) (by decide) (by decide)).1
+
+open Sux.RS.RankSmall in
+example : (reloadView 8 exHdr ((rankSmallB ⟨3, 13⟩).of (⟨#[0xF0F0, 0x3F], 70⟩,
+      ⟨#[0], #[⟨0, 0x123456789ABCDEF001122334⟩], 14⟩))).bind (rankSmallB ⟨3, 13⟩).load
+    = some (⟨#[0xF0F0, 0x3F], 70⟩, ⟨#[0], #[⟨0, 0x123456789ABCDEF001122334⟩], 14⟩) := by decide
+
+/-! ### 3. `EliasFano<H, BitFieldVec<usize>>` — `Sux.EF.St`, followed by the arrays of the selection
+layers of `H` (`S`: nothing for the plain structure, `adaptConstB` for `EfSeq` / `EfDict`,
+`adaptConstB.pair adaptConstB` for `EfSeqDict`: they follow the upper-bits vector in the file) -/
+
+/-- every query of the Elias–Fano model (and of the selection layers over its upper bits) answers
+identically after loading -/
+theorem ef_answers {Z α : Type} (S : Bridge Z) (query : Sux.EF.St → Z → α) (base : Nat) (hdr : List Nat)
+    (s : Sux.EF.St) (z : Z)
+    (hn : s.n < 2 ^ 64) (hu : s.u < 2 ^ 64) (hl : s.l < 2 ^ 64)
+    (hlow : s.low.Inv 64) (hlown : s.low.words.size < 2 ^ 64) (hlowl : s.low.len < 2 ^ 64)
+    (hhw : WordsOK 64 s.high.words) (hhn : s.high.words.size < 2 ^ 64) (hhl : s.high.len < 2 ^ 64)
+    (hz : S.Fits z) :
+    ((reloadFull hdr ((efB.pair S).of (s, z))).bind (efB.pair S).load).map (fun t => query t.1 t.2)
+        = some (query s z)
+    ∧ (base % 8 = 0 → S.Al base →
+        ((reloadView base hdr ((efB.pair S).of (s, z))).bind (efB.pair S).load).map
+          (fun t => query t.1 t.2) = some (query s z)) := by
+  have h := (efB.pair S).answers (fun t => query t.1 t.2) base hdr (s, z)
+    ⟨efB_fits s hn hu hl hlow hlown hlowl hhw hhn hhl, hz⟩
+  exact ⟨h.1, fun hb hs => h.2 ⟨efB_al base hb, hs⟩⟩
+
+/-- C03/C04 after a round trip: the structure built from `xs` (`Input xs u`: non-decreasing, `≤ u <
+2^64`), serialized and loaded back — full copy, or ε-copy from an 8-aligned buffer — is a state `s'`
+on which `len`, `get`, `iter` return `xs` (C03), `contains` decides membership and `succ` is `none`
+exactly beyond the last element (C04), and every other query answers as on the original, to which
+all theorems of C03/C04 apply.  The two size hypotheses bound the ALLOCATED words (the theorems of
+C03 bound the lengths only). -/
+theorem ef_built_answers {xs : List Nat} {u : Nat} {s : Sux.EF.St} (h : Sux.EF.Input xs u)
+    (hs : Sux.EF.build xs.length u xs = .ok s)
+    (hlown : s.low.words.size < 2 ^ 64) (hhn : s.high.words.size < 2 ^ 64)
+    (base : Nat) (hdr : List Nat) :
+    ∃ s', (reloadFull hdr (efB.of s)).bind efB.load = some s'
+      ∧ (base % 8 = 0 → (reloadView base hdr (efB.of s)).bind efB.load = some s')
+      ∧ Sux.EF.len s' = xs.length
+      ∧ (∀ i (hi : i < xs.length), Sux.EF.get s' i = .ok xs[i])
+      ∧ Sux.EF.iterAll s' = .ok (xs, (List.range (xs.length + 1)).map (fun j => xs.length - j))
+      ∧ (∀ q, Sux.EF.contains s' q = .ok (decide (q ∈ xs)))
+      ∧ (∀ q, Sux.EF.succ s' q = .ok none ↔ ∀ y, y ∈ xs → y < q)
+      ∧ (∀ {α : Type} (query : Sux.EF.St → α), query s' = query s) := by
+  obtain ⟨hneq, hueq, _, hl63, hhlen, hhlt, _, _, _, _, hlowlen, _, _⟩ := Sux.EF.ef_repr h hs
+  obtain ⟨R, _⟩ := Sux.EF.rep_of_build h hs
+  have hlen : xs.length < 2 ^ 64 := by have := h.len_lt; omega
+  have hfits : efB.Fits s :=
+    efB_fits s (by rw [hneq]; exact hlen) (by rw [hueq]; exact h.u_lt) (by omega) R.low_inv hlown
+      (by rw [hlowlen]; exact hlen) R.high_inv.2 hhn hhlt
+  have ha := efB.reload base hdr s hfits
+  exact ⟨s, ha.1, fun hb => ha.2 (efB_al base hb), Sux.EF.ef_len h hs, Sux.EF.ef_get h hs,
+    Sux.EF.ef_iter h hs, Sux.EF.ef_contains h hs, Sux.EF.ef_succ_none_iff h hs, fun _ => rfl⟩
+
+/-- `[1, 5, 5, 9]` with `u = 12` (`l = 1`), as `EfSeq`: one inventory word and an empty spill follow -/
+example (i : Nat) :
+    ((reloadFull exHdr ((efB.pair adaptConstB).of (⟨4, 12, 1, ⟨#[0b1111], 1, 4⟩, ⟨#[0x99], 11⟩⟩,
+        ⟨#[0, 11], #[]⟩))).bind (efB.pair adaptConstB).load).map (fun t => Sux.EF.get t.1 i)
+      = some (Sux.EF.get ⟨4, 12, 1, ⟨#[0b1111], 1, 4⟩, ⟨#[0x99], 11⟩⟩ i) :=
+  (ef_answers adaptConstB (fun s _ => Sux.EF.get s i) 0 exHdr
+    ⟨4, 12, 1, ⟨#[0b1111], 1, 4⟩, ⟨#[0x99], 11⟩⟩ ⟨#[0, 11], #[]⟩
+    (by decide) (by decide) (by decide)
+    ⟨by decide, by decide, by decide, wordsOK_of_all _ _ (by decide)⟩ (by decide) (by decide)
+    (wordsOK_of_all _ _ (by decide)) (by decide) (by decide)
+    (adaptConstB_fits _ (wordsOK_of_all _ _ (by decide)) (by decide) (wordsOK_of_all _ _ (by decide))
+      (by decide))).1
+
+example : (reloadView 16 exHdr (efB.of ⟨4, 12, 1, ⟨#[0b1111], 1, 4⟩, ⟨#[0x99], 11⟩⟩)).bind efB.load
+    = some ⟨4, 12, 1, ⟨#[0b1111], 1, 4⟩, ⟨#[0x99], 11⟩⟩ := by decide
+
+/-- the hypotheses of `ef_built_answers` are satisfiable: the model builder on `[1, 5, 5, 9]`, `u = 12`
+gives the state of the two examples above -/
+example : Sux.EF.Input [1, 5, 5, 9] 12
+    ∧ Sux.EF.build 4 12 [1, 5, 5, 9] = .ok ⟨4, 12, 1, ⟨#[0b1111], 1, 4⟩, ⟨#[0x99], 11⟩⟩ :=
+  ⟨⟨by decide, by decide, by decide, by decide⟩, by decide⟩
+
+/-! ### 4. the selection layers: `SelectAdapt` / `SelectZeroAdapt` (`adaptRunB`), their `Const` variants
+(`adaptConstB`), `Select9` (`s9B`), `SelectSmall` / `SelectZeroSmall` (`smallSelB`), each over ANY wrapped
+structure with a bridge `I` (the wrapped structure is the first field: its fields come first) -/
+
+open Sux.RS.Adapt in
+/-- `select` / `select_zero` of the adaptive layer (any function of the wrapped structure, the
+parameters and the two arrays); `L ≤ 64` is what makes `ones_per_inventory - 1` a `usize` -/
+theorem adapt_answers {X α : Type} (I : Bridge X) (query : X → Params → Idx → α)
+    (base : Nat) (hdr : List Nat) (x : X) (P : Params) (idx : Idx)
+    (hx : I.Fits x) (hL : P.L ≤ 64) (hM : P.M < 2 ^ 64)
+    (hi : WordsOK 64 idx.inv) (hin : idx.inv.size < 2 ^ 64)
+    (hs : WordsOK 64 idx.spill) (hsn : idx.spill.size < 2 ^ 64) :
+    ((reloadFull hdr ((I.pair (adaptRunB P.zero)).of (x, P, idx))).bind (I.pair (adaptRunB P.zero)).load).map
+        (fun t => query t.1 t.2.1 t.2.2) = some (query x P idx)
+    ∧ (I.Al base → base % 8 = 0 →
+        ((reloadView base hdr ((I.pair (adaptRunB P.zero)).of (x, P, idx))).bind
+          (I.pair (adaptRunB P.zero)).load).map (fun t => query t.1 t.2.1 t.2.2) = some (query x P idx)) := by
+  have h := (I.pair (adaptRunB P.zero)).answers (fun t => query t.1 t.2.1 t.2.2) base hdr (x, P, idx)
+    ⟨hx, adaptRunB_fits P idx hL hM hi hin hs hsn⟩
+  exact ⟨h.1, fun ha hb => h.2 ⟨ha, adaptRunB_al P.zero base hb⟩⟩
+
+open Sux.RS.Adapt in
+/-- the `Const` variants: the parameters are const generics, only the two arrays are stored -/
+theorem adaptConst_answers {X α : Type} (I : Bridge X) (query : X → Idx → α)
+    (base : Nat) (hdr : List Nat) (x : X) (idx : Idx) (hx : I.Fits x)
+    (hi : WordsOK 64 idx.inv) (hin : idx.inv.size < 2 ^ 64)
+    (hs : WordsOK 64 idx.spill) (hsn : idx.spill.size < 2 ^ 64) :
+    ((reloadFull hdr ((I.pair adaptConstB).of (x, idx))).bind (I.pair adaptConstB).load).map
+        (fun t => query t.1 t.2) = some (query x idx)
+    ∧ (I.Al base → base % 8 = 0 →
+        ((reloadView base hdr ((I.pair adaptConstB).of (x, idx))).bind (I.pair adaptConstB).load).map
+          (fun t => query t.1 t.2) = some (query x idx)) := by
+  have h := (I.pair adaptConstB).answers (fun t => query t.1 t.2) base hdr (x, idx)
+    ⟨hx, adaptConstB_fits idx hi hin hs hsn⟩
+  exact ⟨h.1, fun ha hb => h.2 ⟨ha, adaptConstB_al base hb⟩⟩
+
+open Sux.RS.Adapt in
+/-- `SelectAdapt<AddNumBits<BitVec>>` (`bits`, `number_of_ones`, then the layer) with `L = 3`, `M = 1` -/
+example (r : Nat) :
+    ((reloadFull exHdr (((bvB.pair (Bridge.scalar 8)).pair (adaptRunB false)).of
+        ((⟨#[0xF0F0], 16⟩, 8), ⟨false, 3, 1⟩, ⟨#[4, 0, 16, 0], #[]⟩))).bind
+      ((bvB.pair (Bridge.scalar 8)).pair (adaptRunB false)).load).map
+      (fun t => select t.2.1 t.1.1.words t.2.2 t.1.2 r)
+      = some (select ⟨false, 3, 1⟩ #[0xF0F0] ⟨#[4, 0, 16, 0], #[]⟩ 8 r) :=
+  (adapt_answers (bvB.pair (Bridge.scalar 8)) (fun x P idx => select P x.1.words idx x.2 r) 0 exHdr
+    (⟨#[0xF0F0], 16⟩, 8) ⟨false, 3, 1⟩ ⟨#[4, 0, 16, 0], #[]⟩
+    ⟨bvB_fits _ (wordsOK_of_all _ _ (by decide)) (by decide) (by decide), (by decide : (8 : Nat) < 256 ^ 8)⟩
+    (by decide) (by decide) (wordsOK_of_all _ _ (by decide)) (by decide)
+    (wordsOK_of_all _ _ (by decide)) (by decide)).1
+
+set_option maxRecDepth 8192 in
+open Sux.RS.Adapt in
+example : ((reloadView 8 exHdr ((bvB.pair (adaptRunB true)).of
+      (⟨#[0xF0F0], 16⟩, ⟨true, 3, 1⟩, ⟨#[4, 0, 16, 0], #[7]⟩))).bind (bvB.pair (adaptRunB true)).load).map
+      (fun t => (t.1, t.2.1, t.2.2.inv, t.2.2.spill))
+    = some (⟨#[0xF0F0], 16⟩, ⟨true, 3, 1⟩, #[4, 0, 16, 0], #[7]) := by decide
+
+open Sux.RS.Adapt in
+example : ((reloadFull exHdr ((bvB.pair adaptConstB).of (⟨#[0xF0F0], 16⟩, ⟨#[4, 0], #[7]⟩))).bind
+      (bvB.pair adaptConstB).load).map (fun t => (t.1, t.2.inv, t.2.spill))
+    = some (⟨#[0xF0F0], 16⟩, #[4, 0], #[7]) := by decide
+
+open Sux.RS.Select9 in
+/-- `select` of the `Select9` model over ANY wrapped ranking structure (`rank9B` for
+`Select9<Rank9<BitVec>>`) -/
+theorem select9_answers {X α : Type} (I : Bridge X) (query : X → S9 → α)
+    (base : Nat) (hdr : List Nat) (x : X) (s : S9) (hx : I.Fits x)
+    (hi : WordsOK 64 s.inv) (hin : s.inv.size < 2 ^ 64)
+    (hs : WordsOK 64 s.sub) (hsn : s.sub.size < 2 ^ 64) (hisz : s.isz < 2 ^ 64) (hssz : s.ssz < 2 ^ 64) :
+    ((reloadFull hdr ((I.pair s9B).of (x, s))).bind (I.pair s9B).load).map (fun t => query t.1 t.2)
+        = some (query x s)
+    ∧ (I.Al base → base % 8 = 0 →
+        ((reloadView base hdr ((I.pair s9B).of (x, s))).bind (I.pair s9B).load).map
+          (fun t => query t.1 t.2) = some (query x s)) := by
+  have h := (I.pair s9B).answers (fun t => query t.1 t.2) base hdr (x, s)
+    ⟨hx, s9B_fits s hi hin hs hsn hisz hssz⟩
+  exact ⟨h.1, fun ha hb => h.2 ⟨ha, s9B_al base hb⟩⟩
+
+open Sux.RS.Select9 Sux.RS.Rank9 in
+/-- `Select9<Rank9<BitVec>>`: 70 bits, two counter blocks, then inventory and subinventory -/
+example :
+    ((reloadView 4096 exHdr ((rank9B.pair s9B).of ((⟨#[0xF0F0, 5], 70⟩, #[⟨0, 77⟩, ⟨10, 0⟩]),
+        ⟨#[4, 70], #[0x0001000200030004], 2, 1⟩))).bind (rank9B.pair s9B).load).map
+      (fun t => ((t.1.1, t.1.2), t.2.inv, t.2.sub, t.2.isz, t.2.ssz))
+      = some ((⟨#[0xF0F0, 5], 70⟩, #[⟨0, 77⟩, ⟨10, 0⟩]), #[4, 70], #[0x0001000200030004], 2, 1) :=
+  (select9_answers rank9B (fun x s => ((x.1, x.2), s.inv, s.sub, s.isz, s.ssz)) 4096 exHdr
+    (⟨#[0xF0F0, 5], 70⟩, #[⟨0, 77⟩, ⟨10, 0⟩]) ⟨#[4, 70], #[0x0001000200030004], 2, 1⟩
+    ⟨bvB_fits _ (wordsOK_of_all _ _ (by decide)) (by decide) (by decide),
+      r9cB_fits _ (by decide) (by decide)⟩
+    (wordsOK_of_all _ _ (by decide)) (by decide) (wordsOK_of_all _ _ (by decide)) (by decide)
+    (by decide) (by decide)).2 ⟨bvB_al _ (by decide), r9cB_al _ (by decide)⟩ (by decide)
+
+set_option maxRecDepth 8192 in
+open Sux.RS.Select9 Sux.RS.Rank9 in
+example : ((reloadFull exHdr ((rank9B.pair s9B).of ((⟨#[0xF0F0, 5], 70⟩, #[⟨0, 77⟩, ⟨10, 0⟩]),
+        ⟨#[4, 70], #[0x0001000200030004], 2, 1⟩))).bind (rank9B.pair s9B).load).map
+      (fun t => ((t.1.1, t.1.2), t.2.inv, t.2.sub, t.2.isz, t.2.ssz))
+    = some ((⟨#[0xF0F0, 5], 70⟩, #[⟨0, 77⟩, ⟨10, 0⟩]), #[4, 70], #[0x0001000200030004], 2, 1) := by decide
+
+open Sux.RS.Small in
+/-- `select` / `select_zero` of the `SelectSmall` model over ANY wrapped counting structure
+(`rankSmallB P`, or a further `SelectSmall` layer); `inventory` is a vector of `u32` -/
+theorem small_answers {X α : Type} (I : Bridge X) (query : X → Sel → α)
+    (base : Nat) (hdr : List Nat) (x : X) (s : Sel) (hx : I.Fits x)
+    (hi : WordsOK 32 s.inv) (hin : s.inv.size < 2 ^ 64)
+    (hb : WordsOK 64 s.begin) (hbn : s.begin.size < 2 ^ 64) (hl : s.l < 2 ^ 64) :
+    ((reloadFull hdr ((I.pair smallSelB).of (x, s))).bind (I.pair smallSelB).load).map
+        (fun t => query t.1 t.2) = some (query x s)
+    ∧ (I.Al base → base % 8 = 0 →
+        ((reloadView base hdr ((I.pair smallSelB).of (x, s))).bind (I.pair smallSelB).load).map
+          (fun t => query t.1 t.2) = some (query x s)) := by
+  have h := (I.pair smallSelB).answers (fun t => query t.1 t.2) base hdr (x, s)
+    ⟨hx, smallSelB_fits s hi hin hb hbn hl⟩
+  exact ⟨h.1, fun ha hb' => h.2 ⟨ha, smallSelB_al base hb'⟩⟩
+
+open Sux.RS.Small Sux.RS.RankSmall in
+/-- `SelectSmall<1, 9, RankSmall<1, 9, BitVec>>` -/
+example :
+    ((reloadFull exHdr (((rankSmallB ⟨1, 9⟩).pair smallSelB).of ((⟨#[0xF0F0, 0x3F], 70⟩,
+        ⟨#[0], #[⟨0, 0x00800000⟩], 14⟩), ⟨#[4, 0xFFFFFFFF], #[0, 2], 3⟩))).bind
+      ((rankSmallB ⟨1, 9⟩).pair smallSelB).load).map (fun t => (t.1, t.2.inv, t.2.begin, t.2.l))
+      = some ((⟨#[0xF0F0, 0x3F], 70⟩, ⟨#[0], #[⟨0, 0x00800000⟩], 14⟩), #[4, 0xFFFFFFFF], #[0, 2], 3) :=
+  (small_answers (rankSmallB ⟨1, 9⟩) (fun x s => (x, s.inv, s.begin, s.l)) 0 exHdr
+    (⟨#[0xF0F0, 0x3F], 70⟩, ⟨#[0], #[⟨0, 0x00800000⟩], 14⟩) ⟨#[4, 0xFFFFFFFF], #[0, 2], 3⟩
+    ⟨bvB_fits _ (wordsOK_of_all _ _ (by decide)) (by decide) (by decide),
+      rsmIdxB_fits _ _ (wordsOK_of_all _ _ (by decide)) (by decide) (by decide) (by decide) (by decide)⟩
+    (wordsOK_of_all _ _ (by decide)) (by decide) (wordsOK_of_all _ _ (by decide)) (by decide)
+    (by decide)).1
+
+set_option maxRecDepth 8192 in
+open Sux.RS.Small Sux.RS.RankSmall in
+example : ((reloadView 8 exHdr (((rankSmallB ⟨1, 9⟩).pair smallSelB).of ((⟨#[0xF0F0, 0x3F], 70⟩,
+        ⟨#[0], #[⟨0, 0x00800000⟩], 14⟩), ⟨#[4, 0xFFFFFFFF], #[0, 2], 3⟩))).bind
+      ((rankSmallB ⟨1, 9⟩).pair smallSelB).load).map (fun t => (t.1, t.2.inv, t.2.begin, t.2.l))
+    = some ((⟨#[0xF0F0, 0x3F], 70⟩, ⟨#[0], #[⟨0, 0x00800000⟩], 14⟩), #[4, 0xFFFFFFFF], #[0, 2], 3) := by
+  decide
+
+/-! ### 5. `RearCodedList` — `Sux.RCL.RCL` -/
+
+/-- `get`, `iter`, `index_of`, … of the rear-coded list model answer identically after loading
+(`data` is a byte vector: alignment 1; `pointers` needs 8) -/
+theorem rcl_answers {α : Type} (query : Sux.RCL.RCL → α) (base : Nat) (hdr : List Nat) (r : Sux.RCL.RCL)
+    (hk : r.k < 2 ^ 64) (hl : r.len < 2 ^ 64)
+    (hd : ∀ b ∈ r.data, b < 256) (hdn : r.data.length < 2 ^ 64)
+    (hp : WordsOK 64 r.pointers) (hpn : r.pointers.size < 2 ^ 64) :
+    ((reloadFull hdr (rclB.of r)).bind rclB.load).map query = some (query r)
+    ∧ (base % 8 = 0 → ((reloadView base hdr (rclB.of r)).bind rclB.load).map query = some (query r)) := by
+  have h := rclB.answers query base hdr r (rclB_fits r hk hl hd hdn hp hpn)
+  exact ⟨h.1, fun hb => h.2 (rclB_al base hb)⟩
+
+/-- `["ab", "abc"]` with `k = 2`: one block -/
+example (i : Nat) :
+    ((reloadFull exHdr (rclB.of ⟨2, 2, true, [97, 98, 0, 0, 99, 0], #[0]⟩)).bind rclB.load).map
+      (fun r => Sux.RCL.get r i) = some (Sux.RCL.get ⟨2, 2, true, [97, 98, 0, 0, 99, 0], #[0]⟩ i) :=
+  (rcl_answers (fun r => Sux.RCL.get r i) 0 exHdr ⟨2, 2, true, [97, 98, 0, 0, 99, 0], #[0]⟩
+    (by decide) (by decide) (by decide) (by decide) (wordsOK_of_all _ _ (by decide)) (by decide)).1
+
+example : (reloadView 8 exHdr (rclB.of ⟨2, 2, true, [97, 98, 0, 0, 99, 0], #[0]⟩)).bind rclB.load
+    = some ⟨2, 2, true, [97, 98, 0, 0, 99, 0], #[0]⟩ := by decide
+
+/-! ### 6. `VFunc` / `VFilter` — `Sux.Func.Params`, seed, number of keys, the backend
+(`DB = sliceB wb` for `Box<[W]>`: the cells of the model; `DB = bfvB wb` for `BitFieldVec<W>`: the
+packed cells).  `E = seShardsB logic sw` for `FuseLge3Shards` / `FuseLge3FullSigs`, `seNoShardsB sw`
+for `FuseLge3NoShards`. -/
+
+/-- `get_by_sig`, `get`, `len` of the function model (any function of the parameters, the seed, the
+number of keys and the cells) -/
+theorem vfunc_answers {P D α : Type} (E : Bridge P) (DB : Bridge D) (query : P → Nat → Nat → D → α)
+    (base : Nat) (hdr : List Nat) (p : P) (seed n : Nat) (d : D)
+    (hp : E.Fits p) (hseed : seed < 2 ^ 64) (hn : n < 2 ^ 64) (hd : DB.Fits d) :
+    ((reloadFull hdr ((vfuncB E DB).of (((p, seed), n), d))).bind (vfuncB E DB).load).map
+        (fun t => query t.1.1.1 t.1.1.2 t.1.2 t.2) = some (query p seed n d)
+    ∧ (E.Al base → DB.Al base →
+        ((reloadView base hdr ((vfuncB E DB).of (((p, seed), n), d))).bind (vfuncB E DB).load).map
+          (fun t => query t.1.1.1 t.1.1.2 t.1.2 t.2) = some (query p seed n d)) := by
+  have h := (vfuncB E DB).answers (fun t => query t.1.1.1 t.1.1.2 t.1.2 t.2) base hdr (((p, seed), n), d)
+    (vfuncB_fits E DB p seed n d hp hseed hn hd)
+  exact ⟨h.1, fun he hd' => h.2 ⟨⟨⟨he, trivial⟩, trivial⟩, hd'⟩⟩
+
+/-- `contains_by_sig`, `contains`, … of the filter model (function state, `filter_mask : W`,
+`hash_bits : u32`) -/
+theorem vfilter_answers {P D α : Type} (E : Bridge P) (DB : Bridge D) (wb : Nat)
+    (query : P → Nat → Nat → D → Nat → Nat → α)
+    (base : Nat) (hdr : List Nat) (p : P) (seed n : Nat) (d : D) (mask bits : Nat)
+    (hp : E.Fits p) (hseed : seed < 2 ^ 64) (hn : n < 2 ^ 64) (hd : DB.Fits d)
+    (hm : mask < 2 ^ (8 * wb)) (hb : bits < 2 ^ 32) :
+    ((reloadFull hdr ((vfilterB (vfuncB E DB) wb).of (((((p, seed), n), d), mask), bits))).bind
+        (vfilterB (vfuncB E DB) wb).load).map
+        (fun t => query t.1.1.1.1.1 t.1.1.1.1.2 t.1.1.1.2 t.1.1.2 t.1.2 t.2) = some (query p seed n d mask bits)
+    ∧ (E.Al base → DB.Al base →
+        ((reloadView base hdr ((vfilterB (vfuncB E DB) wb).of (((((p, seed), n), d), mask), bits))).bind
+          (vfilterB (vfuncB E DB) wb).load).map
+          (fun t => query t.1.1.1.1.1 t.1.1.1.1.2 t.1.1.1.2 t.1.1.2 t.1.2 t.2)
+            = some (query p seed n d mask bits)) := by
+  have h := (vfilterB (vfuncB E DB) wb).answers
+    (fun t => query t.1.1.1.1.1 t.1.1.1.1.2 t.1.1.1.2 t.1.1.2 t.1.2 t.2) base hdr
+    (((((p, seed), n), d), mask), bits)
+    (vfilterB_fits _ wb _ mask bits (vfuncB_fits E DB p seed n d hp hseed hn hd) hm hb)
+  exact ⟨h.1, fun he hd' => h.2 ⟨⟨⟨⟨⟨he, trivial⟩, trivial⟩, hd'⟩, trivial⟩, trivial⟩⟩
+
+open Sux.Func in
+/-- a `FuseLge3Shards` function over `Box<[usize]>` with six cells: `get_by_sig` -/
+example (sig : Sig) :
+    ((reloadFull exHdr ((vfuncB (seShardsB .shards 2) (sliceB 8)).of
+        ((({ logic := .shards, sw := 2, shift := 63, s := 1, l := 1 }, 0xDEADBEEF), 3),
+          #[1, 2, 3, 0xFFFFFFFFFFFFFFFF, 5, 6]))).bind (vfuncB (seShardsB .shards 2) (sliceB 8)).load).map
+      (fun t => getBySig t.2 t.1.1.1 sig)
+      = some (getBySig #[1, 2, 3, 0xFFFFFFFFFFFFFFFF, 5, 6]
+          { logic := .shards, sw := 2, shift := 63, s := 1, l := 1 } sig) :=
+  (vfunc_answers (seShardsB .shards 2) (sliceB 8) (fun p _ _ d => getBySig d p sig) 0 exHdr
+    { logic := .shards, sw := 2, shift := 63, s := 1, l := 1 } 0xDEADBEEF 3
+    #[1, 2, 3, 0xFFFFFFFFFFFFFFFF, 5, 6]
+    (seShardsB_fits { logic := .shards, sw := 2, shift := 63, s := 1, l := 1 } (by decide) (by decide)
+      (by decide))
+    (by decide) (by decide) (sliceB_fits 8 _ (by decide) (wordsOK_of_all _ _ (by decide)))).1
+
+open Sux.Func in
+/-- a `FuseLge3NoShards` filter over `BitFieldVec<u16>` (9 hash bits) -/
+example :
+    ((reloadView 4098 exHdr ((vfilterB (vfuncB (seNoShardsB 1) (bfvB 2)) 2).of
+        ((((({ logic := .noshards, sw := 1, shift := 63, s := 1, l := 1 }, 7), 3),
+          ⟨#[0x1234, 0xABCD, 0x0F0F, 0x00FF], 9, 6⟩), 0x1FF), 9))).bind
+      (vfilterB (vfuncB (seNoShardsB 1) (bfvB 2)) 2).load).map
+      (fun t => (t.1.1.1.1.1.s, t.1.1.1.1.2, t.1.1.2, t.1.2, t.2))
+      = some (1, 7, ⟨#[0x1234, 0xABCD, 0x0F0F, 0x00FF], 9, 6⟩, 0x1FF, 9) :=
+  (vfilter_answers (seNoShardsB 1) (bfvB 2) 2 (fun p seed _ d mask bits => (p.s, seed, d, mask, bits))
+    4098 exHdr { logic := .noshards, sw := 1, shift := 63, s := 1, l := 1 } 7 3
+    ⟨#[0x1234, 0xABCD, 0x0F0F, 0x00FF], 9, 6⟩ 0x1FF 9
+    (seNoShardsB_fits { logic := .noshards, sw := 1, shift := 63, s := 1, l := 1 } rfl rfl (by decide)
+      (by decide))
+    (by decide) (by decide)
+    (bfvB_fits 2 _ (by decide) ⟨by decide, by decide, by decide, wordsOK_of_all _ _ (by decide)⟩ (by decide)
+      (by decide))
+    (by decide) (by decide)).2 ⟨trivial, trivial⟩ (bfvB_al 2 _ (by decide) (by decide))
+
+open Sux.Func in
+example : ((reloadFull exHdr ((vfilterB (vfuncB (seNoShardsB 1) (bfvB 2)) 2).of
+        ((((({ logic := .noshards, sw := 1, shift := 63, s := 1, l := 1 }, 7), 3),
+          ⟨#[0x1234, 0xABCD, 0x0F0F, 0x00FF], 9, 6⟩), 0x1FF), 9))).bind
+      (vfilterB (vfuncB (seNoShardsB 1) (bfvB 2)) 2).load).map
+      (fun t => ((t.1.1.1.1.1.s, t.1.1.1.1.1.l, t.1.1.1.1.2, t.1.1.1.2), t.1.1.2, t.1.2, t.2))
+    = some ((1, 1, 7, 3), ⟨#[0x1234, 0xABCD, 0x0F0F, 0x00FF], 9, 6⟩, 0x1FF, 9) := by decide
 
 end Sux.Serde
